@@ -791,6 +791,7 @@ class ArrayOf(DataType):
     def checkProperties(self):
         self.default = [self.members.default] * self.minlen
         super().checkProperties()
+        self.members.checkProperties()  # min/max/... might be forwarded to the members
 
     def getProperties(self):
         """get also properties of members"""
